@@ -17,8 +17,8 @@ EXPLANATION = ("Bounded symbolic execution (CrossHair/z3) of the real credits mo
                "and real-valued waits. Oracle: an independent ledger written from the statement (greedy tier table with "
                "wrap-around, cap, one price per player, expiry times).")
 NONTRIVIAL_RULE = "at least one credit-changing operation was executed and the ledger comparison ran"
-BOUNDS = {"quick": {"pricing_configs": 3, "max_credits": "[0,6] symbolic", "history_len": 3, "wait_s": "[0,10800] real"},
-          "thorough": {"pricing_configs": 3, "max_credits": "[0,6] symbolic", "history_len": 5, "wait_s": "[0,10800] real"}}
+BOUNDS = {"quick": {"pricing_configs": "4 (+1 booted in free play)", "max_credits": "[0,6] symbolic", "history_len": 3, "wait_s": "[0,10800] real"},
+          "thorough": {"pricing_configs": "4 (+1 booted in free play)", "max_credits": "[0,6] symbolic", "history_len": 5, "wait_s": "[0,10800] real"}}
 ASSUMPTIONS = ["a wait that ends exactly on an expiry deadline is assumed away",
                "coin values are multiples of 1/4 (exact in binary floating point), three fixed pricing configurations",
                "max_credits: 0 means unlimited (as the code documents); balls are faked (playfield.add_ball stubbed)",
@@ -27,8 +27,9 @@ ASSUMPTIONS = ["a wait that ends exactly on an expiry deadline is assumed away",
                "nothing expires during a credit-play game, whichever credits arrive during it (test_CreditsMode: 'but not during game')"]
 BUDGET = {"quick": 100, "thorough": 600}
 
-TIERS = {"a": [(2, 1), (8, 5)], "b": [(3, 1)], "c": [(4, 1), (12, 4), (20, 8)]}      # (price in units of .25, credits)
-UPG = {"a": 2, "b": 3, "c": 4}
+TIERS = {"a": [(2, 1), (8, 5)], "b": [(3, 1)], "c": [(4, 1), (12, 4), (20, 8)], "d": [(3, 1)]}      # (price in units of .25, credits)
+UPG = {"a": 2, "b": 3, "c": 4, "d": 3}
+COIN_UNITS = {"d": (2, 4)}          # config d: the small coin is 0.50 with a 0.75 game (coin between half the price and the price)
 
 
 class SymTemplate:
@@ -195,10 +196,10 @@ def _apply(S, t, led, op, i):
     players_before = m.game.num_players if m.game else 0
     if op == "coin_q":
         _hit(t, "s_left_coin")
-        led.coin(1, now)
+        led.coin(COIN_UNITS.get(led.cfg, (1, 4))[0], now)
     elif op == "coin_d":
         _hit(t, "s_right_coin")
-        led.coin(4, now)
+        led.coin(COIN_UNITS.get(led.cfg, (1, 4))[1], now)
     elif op == "service":
         _hit(t, "s_esc")
         led.service(now)
@@ -316,7 +317,7 @@ def body_step(S, t, part):
 
 
 def scenarios(tier):
-    step_parts = [dict(cfg=c, op=o) for c in "abc" for o in ("coin_q", "coin_d", "service", "start", "award")]
+    step_parts = [dict(cfg=c, op=o) for c in "abcd" for o in ("coin_q", "coin_d", "service", "start", "award")]
     if tier == "quick":
         alpha = ["coin_q", "coin_d", "service", "start", "end_game", "wait"]
         hist = [dict(cfg=c, prefix=[p], n=3, alphabet=alpha) for c in "abc" for p in ("coin_d", "coin_q", "toggle")]
@@ -327,7 +328,8 @@ def scenarios(tier):
                  dict(cfg="b", prefix=["enable_credit"], n=3, alphabet=["coin_q", "coin_d", "service", "start", "enable_credit"]),
                  dict(cfg="a", prefix=["coin_d", "enable_free", "enable_free", "enable_credit"], n=6, alphabet=["coin_q", "start", "award"]),
                  dict(cfg="b", prefix=["coin_d", "start", "coin_d", "double_start"], n=5, alphabet=["double_start", "start", "coin_q"]),
-                 dict(cfg="a", prefix=["coin_q", "double_start"], n=4, alphabet=["double_start", "start", "coin_q"])]
+                 dict(cfg="a", prefix=["coin_q", "double_start"], n=4, alphabet=["double_start", "start", "coin_q"]),
+                 dict(cfg="d", prefix=["coin_q"], n=3, alphabet=alpha), dict(cfg="d", prefix=["coin_d"], n=3, alphabet=alpha)]
     else:
         alpha = ["coin_q", "coin_d", "service", "start", "end_game", "wait", "toggle", "award", "enable_credit", "enable_free", "double_start"]
         hist = [dict(cfg=c, prefix=[p, q], n=4, alphabet=alpha) for c in "abc" for p in ("coin_d", "coin_q", "service")
